@@ -522,4 +522,268 @@ example : ∫⁻ ω : Fin 10 → ℝ, ∑ i, (Icc (1:ℝ) 3).indicator (fun _ =>
 example : (10 : ℝ) * 0.3 ≤ (12 : ℤ) * 0.3 / 1.15 ∧ ((12 : ℤ) : ℝ) * 0.3 / 1.15 ≤ 10 * 0.3 + 1 :=
   expected_count_density 10 1.15 0.3 12 (by norm_num) (by norm_num) (by norm_num) (by norm_num) (by norm_num)
 
+/-! ## 5. the same induction on the line (intervals) and in space (balls) -/
+
+/-! ### dimension 1 -/
+
+/-- the set a one-variable 1-D expression denotes -/
+def S1 (v : String) (e : Dom ℝ) (ρ : Env ℝ) : Set ℝ := {x | mem e [(v, [x])] ρ}
+
+theorem volAux_interval_ok {v : String} {lb ub : PFun ℝ} {ρ : Env ℝ} {x : ℝ} {w : Bool}
+    (h : volAux false (.interval v lb ub) ρ = .ok (x, w)) : ∃ l u, lb.f ρ = [l] ∧ ub.f ρ = [u] ∧ x = intervalVol l u := by
+  simp only [volAux] at h
+  split at h
+  · next l u h1 h2 =>
+    simp only [Except.ok.injEq, Prod.mk.injEq] at h
+    exact ⟨l, u, h1, h2, h.1.symm⟩
+  · cases h
+
+theorem translate_denotation_1d (v : String) (e : Dom ℝ) (t : PFun ℝ) (ρ : Env ℝ) (tx : ℝ)
+    (ht : ∀ q, t.f ([(v, q)] ++ ρ) = [tx]) :
+    S1 v (.translate v e t) ρ = (fun q => q + tx) '' S1 v e ρ := by
+  ext p
+  simp only [S1, mem, get_single, ht, mem_ofPred_eq, mem_image]
+  constructor
+  · rintro (⟨q, x, tx', h1, h2, hx, hm⟩ | ⟨q1, q2, x, y, tx', ty', h1, h2, _⟩ | ⟨q1, q2, q3, x, y, z, tx', ty', tz', h1, h2, _⟩)
+    · simp only [Option.some.injEq, List.cons.injEq, and_true] at h1 h2
+      subst h1 h2
+      exact ⟨q, by simpa using hm, hx.symm⟩
+    · simp at h1
+    · simp at h1
+  · rintro ⟨q, hq, rfl⟩
+    left
+    exact ⟨q, _, tx, rfl, rfl, rfl, by simpa using hq⟩
+
+/-- side conditions in dimension 1 (cf. `Truthful2`); intervals are non-empty (`lb ≤ ub`) -/
+def Truthful1 (v : String) (ρ : Env ℝ) : VDom ℝ → Prop
+  | .interval v' lb ub =>
+    v' = v ∧ (∀ q, lb.f ([(v, q)] ++ ρ) = lb.f ρ ∧ ub.f ([(v, q)] ++ ρ) = ub.f ρ) ∧
+      ∀ l u, lb.f ρ = [l] → ub.f ρ = [u] → l ≤ u
+  | .union _ a b =>
+    Truthful1 v ρ a ∧ Truthful1 v ρ b ∧
+      ∀ ea eb, a.erase = some ea → b.erase = some eb → Disjoint (S1 v ea ρ) (S1 v eb ρ)
+  | .cut _ a b =>
+    Truthful1 v ρ a ∧ Truthful1 v ρ b ∧
+      ∀ ea eb, a.erase = some ea → b.erase = some eb → S1 v eb ρ ⊆ S1 v ea ρ
+  | .translate v' d t =>
+    v' = v ∧ (∀ q, t.f ([(v, q)] ++ ρ) = t.f ρ) ∧ (∃ tx, t.f ρ = [tx]) ∧ Truthful1 v ρ d
+  | _ => False
+
+/-- **expression-level soundness (1-D)**: intervals with unions, cuts, translations -/
+theorem volume_sound_1d (v : String) (ρ : Env ℝ) : ∀ (D : VDom ℝ) (e : Dom ℝ) (x : ℝ),
+    D.erase = some e → Truthful1 v ρ D → volAux false D ρ = .ok (x, false) →
+    MeasurableSet (S1 v e ρ) ∧ μL (S1 v e ρ) = ENNReal.ofReal x ∧ 0 ≤ x := by
+  intro D
+  induction D with
+  | par | tri | circle | sphere | point | inter | prod | rotate | bdry | bdryL | bdryR | userVol =>
+    intro e x _ ht; exact ht.elim
+  | interval v' lb ub =>
+    intro e x he ht h
+    obtain ⟨rfl, hq, hle⟩ := ht
+    simp only [VDom.erase, Option.some.injEq] at he; subst he
+    obtain ⟨l, u, hl, hu, rfl⟩ := volAux_interval_ok h
+    have hden := interval_denotation v' lb ub ρ l u (fun q => (hq q).1.trans hl) (fun q => (hq q).2.trans hu)
+    change S1 v' (.interval v' lb ub) ρ = _ at hden
+    rw [hden]
+    refine ⟨measurableSet_Icc, interval_volume l u, ?_⟩
+    simp only [intervalVol]; linarith [hle l u hl hu]
+  | union dj a b iha ihb =>
+    intro e x he ht h
+    obtain ⟨hta, htb, hdis⟩ := ht
+    obtain ⟨-, va, vb, ha, hb, rfl⟩ := volAux_union_ok h
+    cases hea : a.erase with
+    | none => simp [VDom.erase, hea] at he
+    | some ea =>
+      cases heb : b.erase with
+      | none => simp [VDom.erase, hea, heb] at he
+      | some eb =>
+        simp only [VDom.erase, hea, heb, Option.bind_eq_bind, Option.bind_some, Option.pure_def, Option.some.injEq] at he
+        subst he
+        obtain ⟨ma, mua, pa⟩ := iha ea va hea hta ha
+        obtain ⟨mb, mub, pb⟩ := ihb eb vb heb htb hb
+        have hS : S1 v (.union ea eb) ρ = S1 v ea ρ ∪ S1 v eb ρ := by ext p; simp [S1, mem]
+        rw [hS]
+        exact ⟨ma.union mb, disjoint_union_add _ _ _ mb (hdis ea eb hea heb) va vb pa pb mua mub, add_nonneg pa pb⟩
+  | cut ct a b iha ihb =>
+    intro e x he ht h
+    obtain ⟨hta, htb, hsub⟩ := ht
+    obtain ⟨-, va, vb, ha, hb, rfl⟩ := volAux_cut_ok h
+    cases hea : a.erase with
+    | none => simp [VDom.erase, hea] at he
+    | some ea =>
+      cases heb : b.erase with
+      | none => simp [VDom.erase, hea, heb] at he
+      | some eb =>
+        simp only [VDom.erase, hea, heb, Option.bind_eq_bind, Option.bind_some, Option.pure_def, Option.some.injEq] at he
+        subst he
+        obtain ⟨ma, mua, pa⟩ := iha ea va hea hta ha
+        obtain ⟨mb, mub, pb⟩ := ihb eb vb heb htb hb
+        have hS : S1 v (.cut ea eb) ρ = S1 v ea ρ \ S1 v eb ρ := by ext p; simp [S1, mem]
+        rw [hS]
+        refine ⟨ma.diff mb, contained_cut_sub _ _ _ mb (hsub ea eb hea heb) va vb pb mua mub, ?_⟩
+        have hle : μL (S1 v eb ρ) ≤ μL (S1 v ea ρ) := measure_mono (hsub ea eb hea heb)
+        rw [mua, mub, ENNReal.ofReal_le_ofReal_iff pa] at hle
+        linarith
+  | translate v' d t ih =>
+    intro e x he ht h
+    obtain ⟨rfl, hq, ⟨tx, htv⟩, htd⟩ := ht
+    rw [vol_translate] at h
+    cases hed : d.erase with
+    | none => simp [VDom.erase, hed] at he
+    | some ed =>
+      simp only [VDom.erase, hed, Option.bind_eq_bind, Option.bind_some, Option.pure_def, Option.some.injEq] at he
+      subst he
+      obtain ⟨md, mud, pd⟩ := ih ed x hed htd h
+      rw [translate_denotation_1d v' ed t ρ tx (fun q => (hq q).trans htv)]
+      refine ⟨?_, ?_, pd⟩
+      · rw [image_add_right]; exact (measurable_add_const _) md
+      · rw [image_add_right, measure_preimage_add_right, mud]
+
+/-! ### dimension 3 -/
+
+/-- the set a one-variable 3-D expression denotes -/
+def S3 (v : String) (e : Dom ℝ) (ρ : Env ℝ) : Set (Fin 3 → ℝ) := {p | mem e [(v, [p 0, p 1, p 2])] ρ}
+
+/-- the closed ball as a subset of `Fin 3 → ℝ` -/
+def ballSet (cx cy cz r : ℝ) : Set (Fin 3 → ℝ) :=
+  {p | 0 ≤ r ∧ (p 0 - cx) ^ 2 + (p 1 - cy) ^ 2 + (p 2 - cz) ^ 2 ≤ r ^ 2}
+
+theorem ballSet_eq_preimage (cx cy cz r : ℝ) :
+    ballSet cx cy cz r = (WithLp.toLp 2 : (Fin 3 → ℝ) → EuclideanSpace ℝ (Fin 3)) ⁻¹' closedBall !₂[cx, cy, cz] r := by
+  ext p
+  simp only [ballSet, mem_ofPred_eq, mem_preimage, mem_closedBall, EuclideanSpace.dist_eq, Fin.sum_univ_three,
+    Real.sqrt_le_iff]
+  simp [Real.dist_eq, sq_abs]
+
+theorem ball_volume_pi (cx cy cz r : ℝ) (hr : 0 ≤ r) : μL (ballSet cx cy cz r) = ENNReal.ofReal (sphereVol r) := by
+  rw [ballSet_eq_preimage, (PiLp.volume_preserving_toLp (Fin 3)).measure_preimage
+    measurableSet_closedBall.nullMeasurableSet, ball_volume _ _ hr]
+
+theorem ballSet_measurable (cx cy cz r : ℝ) : MeasurableSet (ballSet cx cy cz r) := by
+  rw [ballSet_eq_preimage]
+  exact (PiLp.volume_preserving_toLp (Fin 3)).measurable measurableSet_closedBall
+
+theorem volAux_sphere_ok {v : String} {c r : PFun ℝ} {ρ : Env ℝ} {x : ℝ} {w : Bool}
+    (h : volAux false (.sphere v c r) ρ = .ok (x, w)) : ∃ rr, r.f ρ = [rr] ∧ x = sphereVol rr := by
+  simp only [volAux] at h
+  split at h
+  · next rr h1 =>
+    simp only [Bool.false_eq_true, if_false, Except.ok.injEq, Prod.mk.injEq] at h
+    exact ⟨rr, h1, h.1.symm⟩
+  · cases h
+
+theorem sphere_denotation_pi (v : String) (c r : PFun ℝ) (ρ : Env ℝ) (cx cy cz rr : ℝ)
+    (hc : ∀ q, c.f ([(v, q)] ++ ρ) = [cx, cy, cz]) (hr : ∀ q, r.f ([(v, q)] ++ ρ) = [rr]) :
+    S3 v (.sphere v c r) ρ = ballSet cx cy cz rr := by
+  ext p
+  simp only [S3, mem, get_single, hc, hr, mem_ofPred_eq, ballSet]
+  constructor
+  · rintro ⟨x, y, z, cx', cy', cz', rr', h1, h2, h3, h4, h5⟩
+    simp only [Option.some.injEq, List.cons.injEq, and_true] at h1 h2 h3
+    obtain ⟨rfl, rfl, rfl⟩ := h1; obtain ⟨rfl, rfl, rfl⟩ := h2; subst h3
+    exact ⟨h4, h5⟩
+  · rintro ⟨h4, h5⟩
+    exact ⟨p 0, p 1, p 2, cx, cy, cz, rr, rfl, rfl, rfl, h4, h5⟩
+
+theorem translate_denotation_3d (v : String) (e : Dom ℝ) (t : PFun ℝ) (ρ : Env ℝ) (tx ty tz : ℝ)
+    (ht : ∀ q, t.f ([(v, q)] ++ ρ) = [tx, ty, tz]) :
+    S3 v (.translate v e t) ρ = (fun q => q + ![tx, ty, tz]) '' S3 v e ρ := by
+  ext p
+  simp only [S3, mem, get_single, ht, mem_ofPred_eq, mem_image]
+  constructor
+  · rintro (⟨q, x, tx', h1, h2, _⟩ | ⟨q1, q2, x, y, tx', ty', h1, h2, _⟩ | ⟨q1, q2, q3, x, y, z, tx', ty', tz', h1, h2, hx, hy, hz, hm⟩)
+    · simp at h1
+    · simp at h1
+    · simp only [Option.some.injEq, List.cons.injEq, and_true] at h1 h2
+      obtain ⟨rfl, rfl, rfl⟩ := h1; obtain ⟨rfl, rfl, rfl⟩ := h2
+      refine ⟨![q1, q2, q3], by simpa using hm, ?_⟩
+      ext i; fin_cases i <;> simp [hx, hy, hz]
+  · rintro ⟨q, hq, rfl⟩
+    right; right
+    exact ⟨q 0, q 1, q 2, _, _, _, tx, ty, tz, rfl, rfl, by simp, by simp, by simp, by simpa using hq⟩
+
+/-- side conditions in dimension 3 (cf. `Truthful2`) -/
+def Truthful3 (v : String) (ρ : Env ℝ) : VDom ℝ → Prop
+  | .sphere v' c r =>
+    v' = v ∧ (∀ q, c.f ([(v, q)] ++ ρ) = c.f ρ ∧ r.f ([(v, q)] ++ ρ) = r.f ρ) ∧ (∃ cx cy cz, c.f ρ = [cx, cy, cz]) ∧
+      ∀ x, r.f ρ = [x] → 0 ≤ x
+  | .union _ a b =>
+    Truthful3 v ρ a ∧ Truthful3 v ρ b ∧
+      ∀ ea eb, a.erase = some ea → b.erase = some eb → Disjoint (S3 v ea ρ) (S3 v eb ρ)
+  | .cut _ a b =>
+    Truthful3 v ρ a ∧ Truthful3 v ρ b ∧
+      ∀ ea eb, a.erase = some ea → b.erase = some eb → S3 v eb ρ ⊆ S3 v ea ρ
+  | .translate v' d t =>
+    v' = v ∧ (∀ q, t.f ([(v, q)] ++ ρ) = t.f ρ) ∧ (∃ tx ty tz, t.f ρ = [tx, ty, tz]) ∧ Truthful3 v ρ d
+  | _ => False
+
+/-- **expression-level soundness (3-D)**: balls with unions, cuts, translations -/
+theorem volume_sound_3d (v : String) (ρ : Env ℝ) : ∀ (D : VDom ℝ) (e : Dom ℝ) (x : ℝ),
+    D.erase = some e → Truthful3 v ρ D → volAux false D ρ = .ok (x, false) →
+    MeasurableSet (S3 v e ρ) ∧ μL (S3 v e ρ) = ENNReal.ofReal x ∧ 0 ≤ x := by
+  intro D
+  induction D with
+  | interval | par | tri | circle | point | inter | prod | rotate | bdry | bdryL | bdryR | userVol =>
+    intro e x _ ht; exact ht.elim
+  | sphere v' c r =>
+    intro e x he ht h
+    obtain ⟨rfl, hq, ⟨cx, cy, cz, hc⟩, hpos⟩ := ht
+    simp only [VDom.erase, Option.some.injEq] at he; subst he
+    obtain ⟨rr, hr, rfl⟩ := volAux_sphere_ok h
+    have h0 := hpos rr hr
+    rw [sphere_denotation_pi v' c r ρ cx cy cz rr (fun q => (hq q).1.trans hc) (fun q => (hq q).2.trans hr)]
+    refine ⟨ballSet_measurable _ _ _ _, ball_volume_pi _ _ _ _ h0, ?_⟩
+    simp only [sphereVol, Transc.pi]; positivity
+  | union dj a b iha ihb =>
+    intro e x he ht h
+    obtain ⟨hta, htb, hdis⟩ := ht
+    obtain ⟨-, va, vb, ha, hb, rfl⟩ := volAux_union_ok h
+    cases hea : a.erase with
+    | none => simp [VDom.erase, hea] at he
+    | some ea =>
+      cases heb : b.erase with
+      | none => simp [VDom.erase, hea, heb] at he
+      | some eb =>
+        simp only [VDom.erase, hea, heb, Option.bind_eq_bind, Option.bind_some, Option.pure_def, Option.some.injEq] at he
+        subst he
+        obtain ⟨ma, mua, pa⟩ := iha ea va hea hta ha
+        obtain ⟨mb, mub, pb⟩ := ihb eb vb heb htb hb
+        have hS : S3 v (.union ea eb) ρ = S3 v ea ρ ∪ S3 v eb ρ := by ext p; simp [S3, mem]
+        rw [hS]
+        exact ⟨ma.union mb, disjoint_union_add _ _ _ mb (hdis ea eb hea heb) va vb pa pb mua mub, add_nonneg pa pb⟩
+  | cut ct a b iha ihb =>
+    intro e x he ht h
+    obtain ⟨hta, htb, hsub⟩ := ht
+    obtain ⟨-, va, vb, ha, hb, rfl⟩ := volAux_cut_ok h
+    cases hea : a.erase with
+    | none => simp [VDom.erase, hea] at he
+    | some ea =>
+      cases heb : b.erase with
+      | none => simp [VDom.erase, hea, heb] at he
+      | some eb =>
+        simp only [VDom.erase, hea, heb, Option.bind_eq_bind, Option.bind_some, Option.pure_def, Option.some.injEq] at he
+        subst he
+        obtain ⟨ma, mua, pa⟩ := iha ea va hea hta ha
+        obtain ⟨mb, mub, pb⟩ := ihb eb vb heb htb hb
+        have hS : S3 v (.cut ea eb) ρ = S3 v ea ρ \ S3 v eb ρ := by ext p; simp [S3, mem]
+        rw [hS]
+        refine ⟨ma.diff mb, contained_cut_sub _ _ _ mb (hsub ea eb hea heb) va vb pb mua mub, ?_⟩
+        have hle : μL (S3 v eb ρ) ≤ μL (S3 v ea ρ) := measure_mono (hsub ea eb hea heb)
+        rw [mua, mub, ENNReal.ofReal_le_ofReal_iff pa] at hle
+        linarith
+  | translate v' d t ih =>
+    intro e x he ht h
+    obtain ⟨rfl, hq, ⟨tx, ty, tz, htv⟩, htd⟩ := ht
+    rw [vol_translate] at h
+    cases hed : d.erase with
+    | none => simp [VDom.erase, hed] at he
+    | some ed =>
+      simp only [VDom.erase, hed, Option.bind_eq_bind, Option.bind_some, Option.pure_def, Option.some.injEq] at he
+      subst he
+      obtain ⟨md, mud, pd⟩ := ih ed x hed htd h
+      rw [translate_denotation_3d v' ed t ρ tx ty tz (fun q => (hq q).trans htv)]
+      refine ⟨?_, by rw [translation_invariant, mud], pd⟩
+      rw [image_add_right]
+      exact (measurable_add_const _) md
+
 end TPV.Geom
